@@ -4,7 +4,7 @@ SPEC = dict(
     proof_module="SimbodyProofs.C39",
     sources=["SimbodyModel/Proto.lean", "SimbodyModel/C39.lean", "SimbodyProofs/C39_lemmas.lean",
              "SimbodyProofs/C39.lean", "Drivers/C39.lean"],
-    n=dict(quick=150, thorough=1500),
+    n=dict(quick=300, thorough=3000),
     rtol=0.0, atol=0.0,
     rule="64 exhaustive selection records (8 requested algorithms x nEq x nIneq x hasLimits) + n optimisation runs from "
          "VERIF_SEED: designed strictly convex quadratics (A=LL'+I, KKT certificate in the record) unconstrained / boxed "
